@@ -4,6 +4,7 @@ import (
 	"encoding/json"
 	"fmt"
 	"github.com/FollowTheProcess/spok/file"
+	"github.com/FollowTheProcess/spok/parser"
 	"os"
 	"path/filepath"
 	"strings"
@@ -119,6 +120,7 @@ func TestPlan(t *testing.T) {
 		binShards("^TestForceBinary$", 8, 40, 16, 400)
 	case "C13":
 		binShards("^TestVars$", 16, 150, 16, 1300)
+		p.Shards = append(p.Shards, ev.ShardSpec{Name: "inprocess-0", Test: "^TestVarsInProcess$", TimeoutS: 600})
 	case "C09":
 		binShards("^TestFail$", 16, 60, 16, 1300)
 	case "C20":
@@ -528,6 +530,8 @@ func replayOther(t *testing.T, v ev.Violation, raw []byte) *rp.Fail {
 			t.Fatal(err)
 		}
 		return execForce(nil, newBox(t), c)
+	case "vars-inproc":
+		return execVarsInProcess(t, nil)
 	case "unpriv-find":
 		var c PermCase
 		if err := json.Unmarshal(raw, &c); err != nil {
@@ -943,6 +947,72 @@ func TestWriteTemplates(t *testing.T) {
 	if s.Failed() {
 		t.Fatal("violations recorded")
 	}
+}
+
+// TestVarsInProcess: a long-lived caller of the Go API loads one spokfile after the other — from
+// different working directories, with a spokfile in between whose command cannot be expanded. What a
+// variable's value is and what text a command carries depends on that spokfile and on the working
+// directory at that moment, not on what was loaded before.
+func TestVarsInProcess(t *testing.T) {
+	s := ev.Open(t, "C13")
+	if f := execVarsInProcess(t, s); f != nil {
+		s.Violation("vars-inproc", f.Sig, f.Msg, 3, map[string]any{"sequence": "three directories x 40 rounds, a spokfile that does not load in between"})
+		t.Fatal("violations recorded")
+	}
+}
+
+func execVarsInProcess(t *testing.T, s *ev.Shard) *rp.Fail {
+	base, err := os.MkdirTemp(workBase(t), "inproc-")
+	if err != nil {
+		t.Fatal(err)
+	}
+	defer os.RemoveAll(base)
+	old, _ := os.Getwd()
+	defer os.Chdir(old)
+	good := func(greeting string) string {
+		return fmt.Sprintf("GREETING := %q\nJ := join(\"out\", \"x\")\nJONE := join(\"solo\")\n\ntask show() {\n    echo {{.GREETING}} and {{.J}}\n    echo plain words $HOME\n}\n", greeting)
+	}
+	bad := "GREETING := \"hi\"\n\ntask show() {\n    echo leaked words {{.GREETING.Length}}\n}\n"
+	load := func(dir, src string) (*file.SpokFile, error) {
+		if err := os.MkdirAll(dir, 0o755); err != nil {
+			t.Fatal(err)
+		}
+		if err := os.Chdir(dir); err != nil {
+			t.Fatal(err)
+		}
+		tree, err := parser.New(src).Parse()
+		if err != nil {
+			t.Fatalf("harness: %v", err)
+		}
+		return file.New(tree, dir, nopLogger{})
+	}
+	for round := 0; round < 40; round++ {
+		for k, name := range []string{"first", "second dir", "third"} {
+			dir := filepath.Join(base, name)
+			greeting := fmt.Sprintf("hello %d %d", round, k)
+			if k == 1 {
+				_, _ = load(filepath.Join(base, "broken"), bad) // may fail to load; must leave nothing behind
+			}
+			sf, err := load(dir, good(greeting))
+			if s != nil {
+				s.Eval()
+				s.Class("spokfile_loaded_in_process")
+				s.NonTrivial(fmt.Sprint("inproc", round, k))
+			}
+			if err != nil {
+				return &rp.Fail{Sig: "valid-program-rejected", Msg: fmt.Sprintf("load %d in %s failed: %v", round*3+k, dir, err)}
+			}
+			if sf.Vars["J"] != filepath.Join(dir, "out", "x") || sf.Vars["JONE"] != filepath.Join(dir, "solo") {
+				return &rp.Fail{Sig: "template-substitution", Msg: fmt.Sprintf("loaded in working directory %s (after loads from other directories in the same process): join(\"out\", \"x\") = %q, join(\"solo\") = %q", dir, sf.Vars["J"], sf.Vars["JONE"])}
+			}
+			cmds := sf.Tasks["show"].Commands
+			want := []string{"echo " + greeting + " and " + filepath.Join(dir, "out", "x"), "echo plain words $HOME"}
+			if len(cmds) != 2 || cmds[0] != want[0] || cmds[1] != want[1] {
+				return &rp.Fail{Sig: "command-text-changed", Msg: fmt.Sprintf("load %d in %s: the commands of task show are %q, want %q", round*3+k, dir, cmds, want)}
+			}
+		}
+	}
+	return nil
 }
 
 func TestKill(t *testing.T) {
